@@ -460,46 +460,45 @@ def r14_1_dispatchers(ctx, rule: str = 'R14.1') -> List[Ob]:
         if not (f.node.args.vararg and f.node.args.kwarg and not f.node.args.args):
             continue
         va, kw = f.node.args.vararg.arg, f.node.args.kwarg.arg
-        body = [s for s in f.node.body if not (isinstance(s, ast.Expr) and isinstance(s.value, ast.Constant))]
-        if len(body) != 1 or not isinstance(body[0], ast.If):
+        # the arms by path: every path of the dispatcher is decided by tests on len(args) and returns one call
+        from .rules_classes import MethodPaths
+        from .compare import Inconclusive as _Inc
+        from . import canon as C
+        try:
+            mp = MethodPaths(f).run()
+        except (_Inc, C.CanonError) as e:
             obs.append(inconclusive(rule, f"{f.name}: var-args dispatcher is a single if/elif/else on len(args)", f.loc(),
-                                    construct=_fn(f)))
+                                    str(e), construct=_fn(f)))
             continue
-        chain = []
-        cur = body[0]
-        while True:
-            chain.append((cur.test, cur.body))
-            if len(cur.orelse) == 1 and isinstance(cur.orelse[0], ast.If):
-                cur = cur.orelse[0]
-            else:
-                chain.append((None, cur.orelse))
-                break
-
-        def parse_test(t):
-            if isinstance(t, ast.Compare) and isinstance(t.left, ast.Call) and isinstance(t.left.func, ast.Name) and \
-                    t.left.func.id == 'len' and isinstance(t.left.args[0], ast.Name) and t.left.args[0].id == va and \
-                    len(t.ops) == 1 and isinstance(t.ops[0], ast.Eq) and isinstance(t.comparators[0], ast.Constant):
-                return t.comparators[0].value
-            return None
-
-        def parse_ret(b):
-            if len(b) == 1 and isinstance(b[0], ast.Return) and isinstance(b[0].value, ast.Call) and \
-                    isinstance(b[0].value.func, ast.Name):
-                c = b[0].value
-                fw = any(k.arg is None and isinstance(k.value, ast.Name) and k.value.id == kw for k in c.keywords)
-                return c.func.id, [ast.unparse(a) for a in c.args], fw and len(c.keywords) == 1, c
-            return None
+        L = C.atom(('call', 'len', (C.atom(('n', va)),)))
+        eq1, eq2 = C.mk_cmp('eq', L, C.ONE), C.mk_cmp('eq', L, C.const(2))
+        ret_nodes = {id(n): n for n in ast.walk(f.node) if isinstance(n, ast.Return)}
         arms = {}
-        shape_ok = True
-        for t, b in chain:
-            key = parse_test(t) if t is not None else 'else'
-            r = parse_ret(b)
-            if key is None or r is None:
+        shape_ok = bool(mp.results)
+        for v, conds, env_, stores_, node in mp.results:
+            cs = set(conds)
+            if any(C.mk_not(c) in cs for c in cs):
+                continue
+            others = [c for c in cs if c not in (eq1, eq2, C.mk_not(eq1), C.mk_not(eq2))]
+            if eq1 in cs:
+                key = 1
+            elif eq2 in cs:
+                key = 2
+            elif C.mk_not(eq1) in cs and (C.mk_not(eq2) in cs or not any(eq2 in set(r[1]) for r in mp.results)):
+                key = 'else'
+            else:
+                key = None
+            sa = C.single_atom(v) if v is not None and C.is_poly(v) else None
+            if key is None or others or sa is None or sa[0] != 'call' or not isinstance(sa[1], str) or key in arms:
                 shape_ok = False
                 break
-            arms[key] = r
+            kws = sa[3] if len(sa) > 3 else ()
+            fw = len(kws) == 1 and kws[0][0] == '**' and kws[0][1] == C.atom(('n', kw))
+            call_node = node.value if isinstance(node, ast.Return) and isinstance(node.value, ast.Call) else node
+            arms[key] = (sa[1], [C.show(x) for x in sa[2]], fw, call_node)
         if not shape_ok or 'else' not in arms or 1 not in arms:
-            obs.append(inconclusive(rule, f"{f.name}: dispatcher arms are `return g(..., **kwargs)`", f.loc(), construct=_fn(f)))
+            obs.append(inconclusive(rule, f"{f.name}: var-args dispatcher is a single if/elif/else on len(args) whose arms are "
+                                    f"`return g(..., **kwargs)`", f.loc(), construct=_fn(f)))
             continue
         # one list argument -> multi(args[0]); else -> multi(args): same target
         t = f"{f.name}: a single list argument and several separate train arguments go to the same multivariate function"
